@@ -1840,7 +1840,8 @@ class NodeRequire:
                     continue  # skip private module symbols
                 if name not in self.symbols:
                     continue
-                environment.put(self.symbols[name], moduleEnv.get(name))
+                for alias in self.symbols[name]:
+                    environment.put(alias, moduleEnv.get(name))
         else:
             obj = ValueObject()
             obj.isModule = True
